@@ -181,8 +181,20 @@ func checkProfile(c *vk.Ctx, sigma []enum.Kind, shs []enum.Shape, vals []int64, 
 				return out
 			}
 			at := abs(total)
+			var maxv int64
 			for v := range vals {
-				for _, num := range []float64{float64(v) - 0.5, float64(v) + 0.5} {
+				if v > maxv {
+					maxv = v
+				}
+			}
+			for v := range vals {
+				// the cutoff is int64(total x fraction): v-0.5 keeps everything from v-1 up, v+0.5 everything
+				// from v up; max+1.5 is the cut that removes everything
+				nums := []float64{float64(v) - 0.5, float64(v) + 0.5}
+				if v == maxv {
+					nums = append(nums, float64(v)+1.5)
+				}
+				for _, num := range nums {
 					if num > 0 {
 						out = append(out, strconv.FormatFloat(num/float64(at), 'f', 9, 64))
 					}
